@@ -72,11 +72,11 @@ Definition wb4 := Bulk [wd4] [204; 4; 4; 4; 4; 4; 4; 4; 4]%N 10 [214; 4; 4; 4]%N
 Definition wcs := [wb4; wb1].            (* A = wb4 (larger docs block), B = wb1 *)
 Definition wdm' := dec_m_of wcs.
 Definition wdd' := dec_d_of wcs.
-Definition w_empty := WSt [] [] 0 0 [].
+Definition w_empty := WSt [] [] 0 0 [] [].
 
 (* A reserves its docs offset first, B's meta block reaches the meta file first *)
 Definition w_split := run_events wcs w_empty [EvDocs 0; EvDocs 1; EvMeta 1; EvMeta 0].
-Definition w_locked := run_events wcs w_empty (locked [0; 1]).
+Definition w_locked := run_events wcs w_empty (locked [UOk 0; UOk 1]).
 
 Definition fetch_after_restart (w : wst) (id : N) : option fetched :=
   match restart wdm' (Disk (w_docs w) (w_meta w)) with
@@ -161,4 +161,21 @@ Lemma w_rollback_meta_first :
   final_fetch (run wdm (w_fault_crash_hist 39 0)) 3 = Some (Body (d_body wd3)) /\
   final_fetch (run wdm (w_fault_crash_hist 0 37)) 3 = Some (Body (d_body wd3)) /\
   final_fetch (run wdm (w_fault_crash_hist 0 37)) 2 = Some (Body (d_body wd2)).
+Proof. vm_compute. repeat split; reflexivity. Qed.
+
+(* ---------- concurrent bulks with a failing one: where the rollback target is read ----------
+   B = wb1 is acknowledged; A = wb4 waits for the lock behind it and its docs write fails after 2
+   bytes. Snapshot inside the unit (current code): A's rollback is the identity, B stays. *)
+Definition w_fail_locked := run_events wcs w_empty (locked [UOk 1; UFail 0 false 2]).
+(* snapshot taken BEFORE the lock, i.e. before B ran: A's rollback cuts B's blocks off *)
+Definition w_fail_stale :=
+  run_events wcs w_empty [EvSnap 0; EvSnap 1; EvDocs 1; EvMeta 1; EvFailDocs 0 2; EvRollback 0].
+
+Lemma w_snapshot_inside_fine :
+  fetch_after_restart w_fail_locked 1 = Some (Body (d_body wd1)) /\
+  fetch_after_restart w_fail_locked 4 = Some Absent.
+Proof. vm_compute. split; reflexivity. Qed.
+Lemma w_snapshot_before_lock_breaks :
+  w_docs w_fail_stale = [] /\ w_meta w_fail_stale = [] /\
+  fetch_after_restart w_fail_stale 1 = Some Absent.        (* the acknowledged bulk is gone *)
 Proof. vm_compute. repeat split; reflexivity. Qed.
